@@ -194,6 +194,9 @@ def rule_retention(ctx: Ctx, cls: str = POLY) -> None:
                     continue
                 for r in retention_check(p, op):
                     construct = "%s retains verbatim interface-level guarantee terms [%s]" % (op, r["class"])
+                    if r.get("kind") == "simplify-before-elimination":
+                        construct = "%s does not remove an interface-level guarantee as redundant before the elimination rewrites what made it redundant" % op
+                        r = dict(r, lost="[%s] %s" % (r["class"], r["lost"]))
                     if r["ok"]:
                         ctx.ok("retain", anchor, construct + " @ " + fkey + ":" + _short(p))
                     else:
@@ -201,7 +204,7 @@ def rule_retention(ctx: Ctx, cls: str = POLY) -> None:
                             "retain",
                             anchor,
                             construct,
-                            ("%s; " % r["lost"] if r["class"].startswith("no variable") else "terms with membership {%s} are in neither the result's guarantees nor its assumptions; " % r["lost"])
+                            ("%s; " % r["lost"] if r["class"].startswith(("no variable", "no guarantee")) else "terms with membership {%s} are in neither the result's guarantees nor its assumptions; " % r["lost"])
                             + "G_res = %s (entry %s, path %s)" % (r["g_res"], fkey, path_label(p)),
                             {"events": _events(p)},
                             where=prog.func(anchor).where,
@@ -711,6 +714,34 @@ def _first_enumerated(prog: Program, fi, depth: int) -> List[Optional[str]]:
             e = e.left
         if isinstance(e, ast.ListComp) and isinstance(e.generators[0].iter, ast.Name):
             firsts.append(e.generators[0].iter.id)
+        elif isinstance(e, ast.Name) and e.id not in fi.params:
+            # a local list filled by `.append(x)` / `+= [x]` inside `for x in <parameter>` loops: the first such loop
+            src = None
+            for st in ast.walk(fi.node):
+                if isinstance(st, ast.For) and isinstance(st.iter, ast.Name) and st.iter.id in fi.params and isinstance(st.target, ast.Name):
+                    fills = any(
+                        (isinstance(c, ast.Call) and isinstance(c.func, ast.Attribute) and c.func.attr == "append" and isinstance(c.func.value, ast.Name) and c.func.value.id == e.id and c.args and isinstance(c.args[0], ast.Name) and c.args[0].id == st.target.id)
+                        for b in st.body
+                        for c in ast.walk(b)
+                    )
+                    if fills:
+                        src = st.iter.id
+                        break
+            # a temporary bound once to another recognised expression
+            if src is None:
+                binds = [n.value for n in ast.walk(fi.node) if isinstance(n, ast.Assign) and len(n.targets) == 1 and isinstance(n.targets[0], ast.Name) and n.targets[0].id == e.id]
+                if len(binds) == 1 and not isinstance(binds[0], (ast.List,)):
+                    sub = ast.Return(value=binds[0])
+                    fake = ast.FunctionDef(name="_", args=fi.node.args, body=[sub], decorator_list=[])
+
+                    class _F:
+                        node = fake
+                        params = fi.params
+                        module = fi.module
+
+                    inner = _first_enumerated(prog, _F(), depth + 1)
+                    src = inner[0] if len(inner) == 1 else None
+            firsts.append(src)
         elif isinstance(e, ast.Name):
             firsts.append(e.id)
         elif isinstance(e, ast.Call) and isinstance(e.func, ast.Name) and e.func.id == "list" and len(e.args) == 1 and isinstance(e.args[0], ast.Name):
